@@ -6,6 +6,7 @@ import AtomicaModel.Rules
 import Mathlib.Tactic.Linarith
 import Mathlib.Data.List.Basic
 import Mathlib.Data.List.Nodup
+import Mathlib.Logic.Relation
 
 namespace Atomica.Rules
 
@@ -55,6 +56,366 @@ theorem allC_eq_some {α ε : Type} (f : α → Option ε) (l : List α) (e : ε
       · exact ⟨x, by simp, h1⟩
       · obtain ⟨y, hy, he⟩ := ih h1
         exact ⟨y, by simp [hy], he⟩
+
+theorem seqC_append {ε : Type} (a b : List (Option ε)) : seqC (a ++ b) = andThen (seqC a) (seqC b) := by
+  induction a with
+  | nil => rfl
+  | cons c cs ih =>
+      cases c with
+      | none => simpa [seqC, andThen] using ih
+      | some e => simp [seqC, andThen]
+
+theorem seqC_append_eq_none {ε : Type} (a b : List (Option ε)) : seqC (a ++ b) = none ↔ seqC a = none ∧ seqC b = none := by
+  rw [seqC_append, andThen_eq_none]
+
+/-! ### a timed parameter cannot vary: `grow` computes the reflexive-transitive closure of the dependency relation -/
+
+/-- the function of `p` names `n` -/
+def Mentions (p : Par) (n : String) : Prop := ∃ f, p.fn = .fn f ∧ Dep.var n ∈ f.deps
+
+/-- parameter `a` depends directly on parameter `b`: the function of `a` names the (other) parameter `b` -/
+def ParDep (fw : FrameworkAbs) (a b : String) : Prop :=
+  ∃ pa ∈ fw.pars, pa.name = a ∧ Mentions pa b ∧ b ≠ a ∧ ∃ pb ∈ fw.pars, pb.name = b
+
+/-- `a` depends on `b` directly or through other parameters (or `a = b`): `b ∈ {a} ∪ descendants(D, a)` -/
+def Reaches (fw : FrameworkAbs) : String → String → Prop := Relation.ReflTransGen (ParDep fw)
+
+/-- the predicate the code evaluates on a reached parameter: a derivative parameter, or one whose function names something
+    that is neither a parameter nor an interaction -/
+def VariesImpl (fw : FrameworkAbs) (q : Par) : Prop :=
+  q.deriv = true ∨ ∃ n, Mentions q n ∧ findPar fw n = none ∧ findInter fw n = none
+
+theorem findPar_isSome_iff (fw : FrameworkAbs) (n : String) : (findPar fw n).isSome = true ↔ ∃ p ∈ fw.pars, p.name = n := by
+  simp [findPar, List.find?_isSome]
+
+theorem findPar_eq_none_iff (fw : FrameworkAbs) (n : String) : findPar fw n = none ↔ ∀ p ∈ fw.pars, p.name ≠ n := by
+  simp [findPar, List.find?_eq_none]
+
+theorem mem_parDepsOf (fw : FrameworkAbs) (pa : Par) (b : String) :
+    b ∈ parDepsOf fw pa ↔ Mentions pa b ∧ b ≠ pa.name ∧ ∃ pb ∈ fw.pars, pb.name = b := by
+  unfold parDepsOf Mentions
+  cases hf : pa.fn with
+  | none => simp
+  | notString => simp
+  | invalid => simp
+  | fn f =>
+      simp only [List.mem_filterMap, FnCell.fn.injEq, exists_eq_left']
+      constructor
+      · rintro ⟨d, hd, hb⟩
+        cases d with
+        | var n =>
+            by_cases hc : ((findPar fw n).isSome && n != pa.name) = true
+            · simp only [hc, if_true, Option.some.injEq] at hb
+              subst hb
+              simp only [Bool.and_eq_true, bne_iff_ne, ne_eq] at hc
+              exact ⟨hd, hc.2, (findPar_isSome_iff fw n).1 hc.1⟩
+            · simp [hc] at hb
+        | parFlow q => simp at hb
+        | compFlow a c => simp at hb
+      · rintro ⟨hm, hne, hex⟩
+        refine ⟨.var b, hm, ?_⟩
+        have : ((findPar fw b).isSome && b != pa.name) = true := by
+          simp only [Bool.and_eq_true, bne_iff_ne, ne_eq]
+          exact ⟨(findPar_isSome_iff fw b).2 hex, hne⟩
+        simp [this]
+
+theorem mem_varEdges (fw : FrameworkAbs) (a b : String) : (a, b) ∈ varEdges fw ↔ ParDep fw a b := by
+  unfold varEdges ParDep
+  simp only [List.mem_flatMap, List.mem_map, Prod.mk.injEq]
+  constructor
+  · rintro ⟨pa, hpa, d, hd, rfl, rfl⟩
+    obtain ⟨h1, h2, h3⟩ := (mem_parDepsOf fw pa d).1 hd
+    exact ⟨pa, hpa, rfl, h1, h2, h3⟩
+  · rintro ⟨pa, hpa, rfl, h1, h2, h3⟩
+    exact ⟨pa, hpa, b, (mem_parDepsOf fw pa b).2 ⟨h1, h2, h3⟩, rfl, rfl⟩
+
+theorem variesPar_iff (fw : FrameworkAbs) (q : Par) : variesPar fw q = true ↔ VariesImpl fw q := by
+  unfold variesPar VariesImpl mentionsVarying Mentions isVaryingName
+  cases hf : q.fn with
+  | none => simp
+  | notString => simp
+  | invalid => simp
+  | fn f =>
+      simp only [Bool.or_eq_true, List.any_eq_true, FnCell.fn.injEq, exists_eq_left']
+      constructor
+      · rintro (h | ⟨d, hd, hv⟩)
+        · exact Or.inl h
+        · cases d with
+          | var n =>
+              simp only [Bool.and_eq_true, Option.isNone_iff_eq_none] at hv
+              exact Or.inr ⟨n, hd, hv.1, hv.2⟩
+          | parFlow q => simp at hv
+          | compFlow a c => simp at hv
+      · rintro (h | ⟨n, hd, h1, h2⟩)
+        · exact Or.inl h
+        · exact Or.inr ⟨.var n, hd, by simp [h1, h2]⟩
+
+theorem mem_growStep (edges : List (String × String)) (U : List String) (v : String) :
+    v ∈ growStep edges U ↔ v ∈ U ∧ ∀ e ∈ edges, e.2 = v → e.1 ∈ U := by
+  unfold growStep
+  rw [List.mem_filter]
+  constructor
+  · rintro ⟨hv, hk⟩
+    refine ⟨hv, fun e he h2 => ?_⟩
+    by_contra hn
+    have : edges.any (fun e => e.2 == v && !(U.contains e.1)) = true := by
+      rw [List.any_eq_true]
+      exact ⟨e, he, by simp [h2, hn]⟩
+    rw [this] at hk
+    simp at hk
+  · rintro ⟨hv, hk⟩
+    refine ⟨hv, ?_⟩
+    rw [Bool.not_eq_true', List.any_eq_false]
+    intro e he
+    by_cases h2 : e.2 = v
+    · simp [h2, hk e he h2]
+    · simp [h2]
+
+theorem growStep_subset (edges : List (String × String)) (U : List String) : ∀ v ∈ growStep edges U, v ∈ U :=
+  fun v hv => ((mem_growStep edges U v).1 hv).1
+
+theorem growStep_eq_self (edges : List (String × String)) (U : List String) (h : (growStep edges U).length = U.length) :
+    growStep edges U = U := by
+  unfold growStep at h ⊢
+  exact List.filter_eq_self.2 (List.length_filter_eq_length_iff.1 h)
+
+theorem grow_subset (edges : List (String × String)) : ∀ (k : Nat) (U : List String), ∀ v ∈ grow edges k U, v ∈ U := by
+  intro k
+  induction k with
+  | zero => intro U v hv; simpa [grow] using hv
+  | succ k ih =>
+      intro U v hv
+      simp only [grow] at hv
+      split at hv
+      · exact hv
+      · exact growStep_subset edges U v (ih _ v hv)
+
+/-- after at most `U.length` productive steps nothing changes any more -/
+theorem grow_fixed (edges : List (String × String)) : ∀ (k : Nat) (U : List String), U.length ≤ k →
+    growStep edges (grow edges k U) = grow edges k U := by
+  intro k
+  induction k with
+  | zero =>
+      intro U hl
+      have : U = [] := List.length_eq_zero_iff.1 (Nat.le_zero.1 hl)
+      subst this
+      simp [grow, growStep]
+  | succ k ih =>
+      intro U hl
+      simp only [grow]
+      split
+      · rename_i heq
+        exact growStep_eq_self edges U (by simpa using heq)
+      · rename_i hne
+        apply ih
+        have hle : (growStep edges U).length ≤ U.length := by
+          unfold growStep
+          exact List.length_filter_le _ _
+        have : (growStep edges U).length ≠ U.length := by simpa using hne
+        omega
+
+/-- everything that has left `U` was named by something that had left `U` before -/
+theorem grow_sound (edges : List (String × String)) (univ : List String) (R : String → Prop)
+    (hsrc : ∀ e ∈ edges, e.1 ∈ univ) (hedge : ∀ e ∈ edges, R e.1 → R e.2) :
+    ∀ (k : Nat) (U : List String), (∀ v ∈ univ, v ∉ U → R v) → ∀ v ∈ univ, v ∉ grow edges k U → R v := by
+  intro k
+  induction k with
+  | zero => intro U h v hv hn; exact h v hv (by simpa [grow] using hn)
+  | succ k ih =>
+      intro U h v hv hn
+      simp only [grow] at hn
+      split at hn
+      · exact h v hv hn
+      · refine ih (growStep edges U) ?_ v hv hn
+        intro w hw hnw
+        by_cases hwU : w ∈ U
+        · rw [mem_growStep] at hnw
+          have : ¬ ∀ e ∈ edges, e.2 = w → e.1 ∈ U := fun hall => hnw ⟨hwU, hall⟩
+          push Not at this
+          obtain ⟨e, he, h2, h1⟩ := this
+          exact h2 ▸ hedge e he (h e.1 (hsrc e he) h1)
+        · exact h w hw hwU
+
+/-- the complement of a fixed point is closed under the edges -/
+theorem grow_closed (edges : List (String × String)) (k : Nat) (U : List String) (hk : U.length ≤ k) (a b : String)
+    (he : (a, b) ∈ edges) (ha : a ∉ grow edges k U) : b ∉ grow edges k U := by
+  intro hb
+  rw [← grow_fixed edges k U hk, mem_growStep] at hb
+  exact ha (hb.2 (a, b) he rfl)
+
+theorem not_mem_unreached_of_reaches (fw : FrameworkAbs) (start v : String) (hr : Reaches fw start v) : v ∉ unreached fw start := by
+  unfold unreached
+  induction hr with
+  | refl =>
+      intro hmem
+      have := grow_subset _ _ _ _ hmem
+      simp at this
+  | tail _ hab ih =>
+      exact grow_closed _ _ _ (Nat.le_refl _) _ _ ((mem_varEdges fw _ _).2 hab) ih
+
+/-- `unreached fw start` is exactly the list of parameters that `start` does not reach -/
+theorem not_mem_unreached_iff (fw : FrameworkAbs) (start v : String) (hv : ∃ q ∈ fw.pars, q.name = v) :
+    v ∉ unreached fw start ↔ Reaches fw start v := by
+  refine ⟨fun hn => ?_, not_mem_unreached_of_reaches fw start v⟩
+  unfold unreached at hn
+  refine grow_sound (varEdges fw) (fw.pars.map (·.name)) (Reaches fw start) ?_ ?_ _ _ ?_ v ?_ hn
+  · rintro ⟨a, b⟩ he
+    obtain ⟨pa, hpa, rfl, _⟩ := (mem_varEdges fw a b).1 he
+    exact List.mem_map_of_mem hpa
+  · rintro ⟨a, b⟩ he hr
+    exact Relation.ReflTransGen.tail hr ((mem_varEdges fw a b).1 he)
+  · intro w hw hnw
+    have : w = start := by
+      by_contra hne
+      exact hnw (List.mem_filter.2 ⟨hw, by simpa using hne⟩)
+    subst this
+    exact Relation.ReflTransGen.refl
+  · obtain ⟨q, hq, rfl⟩ := hv
+    exact List.mem_map_of_mem hq
+
+/-- The closure check accepts exactly when no timed parameter reaches (reflexive-transitive closure of `ParDep`) a
+    parameter that varies. -/
+theorem checkTimedVarying_eq_none (fw : FrameworkAbs) : checkTimedVarying fw = none ↔
+    ∀ p ∈ fw.pars, p.timed = true → ∀ q ∈ fw.pars, Reaches fw p.name q.name → ¬ VariesImpl fw q := by
+  unfold checkTimedVarying
+  rw [allC_eq_none]
+  constructor
+  · intro h p hp ht q hq hr hvar
+    have := h p hp
+    simp only [checkTimedVaryingPar, ht, if_true, req_eq_none, List.all_eq_true, Bool.or_eq_true, Bool.not_eq_true'] at this
+    rcases this q hq with hc | hc
+    · exact (not_mem_unreached_iff fw p.name q.name ⟨q, hq, rfl⟩).2 hr (by simpa using hc)
+    · rw [(variesPar_iff fw q).2 hvar] at hc
+      exact absurd hc (by simp)
+  · intro h p hp
+    by_cases ht : p.timed = true
+    · simp only [checkTimedVaryingPar, ht, if_true, req_eq_none, List.all_eq_true, Bool.or_eq_true, Bool.not_eq_true']
+      intro q hq
+      by_cases hc : q.name ∈ unreached fw p.name
+      · left; simpa using hc
+      · right
+        have hr := (not_mem_unreached_iff fw p.name q.name ⟨q, hq, rfl⟩).1 hc
+        have := h p hp ht q hq hr
+        rw [← variesPar_iff] at this
+        simpa using this
+    · simp [checkTimedVaryingPar, ht]
+
+theorem checkTimedVarying_eq_some (fw : FrameworkAbs) (e : RuleId) (h : checkTimedVarying fw = some e) : e = .timedVarying := by
+  obtain ⟨p, _, hp⟩ := allC_eq_some _ _ _ h
+  unfold checkTimedVaryingPar at hp
+  split at hp
+  · exact req_eq_some _ _ _ hp
+  · simp at hp
+
+/-! ### which rule a check can report -/
+
+theorem req_ne {ε : Type} (b : Bool) (e r : ε) (h : e ≠ r) : req b e ≠ some r := by
+  cases b <;> simp [req, h]
+
+theorem seqC_ne {ε : Type} (cs : List (Option ε)) (r : ε) (h : ∀ c ∈ cs, c ≠ some r) : seqC cs ≠ some r := by
+  intro hs
+  obtain ⟨c, hc, he⟩ := seqC_eq_some _ _ hs
+  exact h c hc he
+
+theorem allC_ne {α ε : Type} (f : α → Option ε) (l : List α) (r : ε) (h : ∀ x ∈ l, f x ≠ some r) : allC f l ≠ some r := by
+  intro hs
+  obtain ⟨x, hx, he⟩ := allC_eq_some _ _ _ hs
+  exact h x hx he
+
+theorem checkCodeNames_ne_timedVarying : ∀ (names seen : List String), checkCodeNames names seen ≠ some .timedVarying := by
+  intro names
+  induction names with
+  | nil => intro seen; simp [checkCodeNames]
+  | cons n rest ih =>
+      intro seen
+      unfold checkCodeNames
+      apply seqC_ne
+      intro c hc
+      simp only [List.mem_cons, List.not_mem_nil, or_false] at hc
+      rcases hc with rfl | rfl | rfl | rfl
+      · exact req_ne _ _ _ (by decide)
+      · exact req_ne _ _ _ (by decide)
+      · exact req_ne _ _ _ (by decide)
+      · exact ih _
+
+theorem checkDisplayNames_ne_timedVarying : ∀ (names seen : List String), checkDisplayNames names seen ≠ some .timedVarying := by
+  intro names
+  induction names with
+  | nil => intro seen; simp [checkDisplayNames]
+  | cons n rest ih =>
+      intro seen
+      unfold checkDisplayNames
+      apply seqC_ne
+      intro c hc
+      simp only [List.mem_cons, List.not_mem_nil, or_false] at hc
+      rcases hc with rfl | rfl
+      · exact req_ne _ _ _ (by decide)
+      · exact ih _
+
+theorem checkStageSet_ne_timedVarying (fw : FrameworkAbs) (s : Stage) : checkStageSet fw s ≠ some .timedVarying := by
+  unfold checkStageSet
+  split
+  · simp
+  · apply seqC_ne
+    intro c hc
+    simp only [List.mem_cons, List.not_mem_nil, or_false] at hc
+    rcases hc with rfl | rfl <;> exact req_ne _ _ _ (by decide)
+
+theorem checkCascadeNested_ne_timedVarying (fw : FrameworkAbs) (c : Cascade) : checkCascadeNested fw c ≠ some .timedVarying := by
+  unfold checkCascadeNested
+  apply seqC_ne
+  intro x hx
+  simp only [List.mem_cons, List.not_mem_nil, or_false] at hx
+  rcases hx with rfl | rfl
+  · exact allC_ne _ _ _ (fun s _ => checkStageSet_ne_timedVarying fw s)
+  · split
+    · simp
+    · apply seqC_ne
+      intro y hy
+      simp only [List.mem_cons, List.not_mem_nil, or_false] at hy
+      rcases hy with rfl | rfl <;> exact req_ne _ _ _ (by decide)
+
+theorem checkCascadeName_ne_timedVarying (fw : FrameworkAbs) (c : Cascade) : checkCascadeName fw c ≠ some .timedVarying := by
+  unfold checkCascadeName
+  apply seqC_ne
+  intro x hx
+  simp only [List.mem_cons, List.not_mem_nil, or_false] at hx
+  rcases hx with rfl | rfl | rfl | rfl
+  · exact req_ne _ _ _ (by decide)
+  · exact req_ne _ _ _ (by decide)
+  · exact req_ne _ _ _ (by decide)
+  · exact allC_ne _ _ _ (fun s _ => req_ne _ _ _ (by decide))
+
+theorem checkStageDefined_ne_timedVarying (fw : FrameworkAbs) (s : Stage) : checkStageDefined fw s ≠ some .timedVarying := by
+  unfold checkStageDefined
+  apply seqC_ne
+  intro x hx
+  simp only [List.mem_cons, List.not_mem_nil, or_false] at hx
+  rcases hx with rfl | rfl
+  · exact req_ne _ _ _ (by decide)
+  · exact allC_ne _ _ _ (fun s _ => req_ne _ _ _ (by decide))
+
+/-- none of the checks that come after the closure check reports `timedVarying` -/
+theorem laterRules_ne_timedVarying (fw : FrameworkAbs) : seqC (laterRules fw) ≠ some .timedVarying := by
+  unfold laterRules
+  apply seqC_ne
+  intro x hx
+  simp only [List.mem_cons, List.not_mem_nil, or_false] at hx
+  rcases hx with rfl | rfl | rfl | rfl | rfl | rfl | rfl
+  · exact req_ne _ _ _ (by decide)
+  · exact checkCodeNames_ne_timedVarying _ _
+  · exact checkDisplayNames_ne_timedVarying _ _
+  · exact req_ne _ _ _ (by decide)
+  · exact allC_ne _ _ _ (fun c _ => checkCascadeName_ne_timedVarying fw c)
+  · exact allC_ne _ _ _ (fun c _ => allC_ne _ _ _ (fun s _ => checkStageDefined_ne_timedVarying fw s))
+  · exact allC_ne _ _ _ (fun c _ => checkCascadeNested_ne_timedVarying fw c)
+
+/-- when every earlier rule passes, the verdict is the closure check's, else the first later failure -/
+theorem firstError_of_earlier (fw : FrameworkAbs) (h : seqC (earlierRules fw) = none) :
+    firstError fw = andThen (checkTimedVarying fw) (seqC (laterRules fw)) := by
+  unfold firstError
+  rw [seqC_append, h]
+  rfl
 
 /-! ### acyclicity: peeling ⇔ a rank function exists -/
 
